@@ -8,51 +8,12 @@
    translated mechanically from the Python source into Generated/TimeInt.v; the hand-written versions
    below are the specification side of theorems [timeint_decodes]/[dateint_decodes]). *)
 From Coq Require Import ZArith List Bool.
+From OSU.Lib Require Export TimeAuxCivil.
 Import ListNotations.
 Open Scope Z_scope.
 
-(* ------------------------------------------------------------------------------------------- *)
-(* proleptic Gregorian calendar: days since 1970-01-01 (eras of 400 years, March-based years)   *)
-(* ------------------------------------------------------------------------------------------- *)
-
-(* day of era from (year of era, March-based month 0..11, day 1..31) *)
-Definition doe_of (yoe mp d : Z) : Z :=
-  yoe * 365 + yoe / 4 - yoe / 100 + ((153 * mp + 2) / 5 + d - 1).
-
-Definition civ_of_doe (doe : Z) : Z * Z * Z :=
-  let yoe := (doe - doe / 1460 + doe / 36524 - doe / 146096) / 365 in
-  let doy := doe - (365 * yoe + yoe / 4 - yoe / 100) in
-  let mp := (5 * doy + 2) / 153 in
-  let d := doy - (153 * mp + 2) / 5 + 1 in
-  (yoe, mp, d).
-
-Definition mp_of_month (m : Z) : Z := if m >? 2 then m - 3 else m + 9.
-Definition month_of_mp (mp : Z) : Z := if mp <? 10 then mp + 3 else mp - 9.
-
-Definition days_from_civil (y m d : Z) : Z :=
-  let y' := if m <=? 2 then y - 1 else y in
-  let era := y' / 400 in
-  let yoe := y' - era * 400 in
-  era * 146097 + doe_of yoe (mp_of_month m) d - 719468.
-
-Definition civil_from_days (z : Z) : Z * Z * Z :=
-  let z' := z + 719468 in
-  let era := z' / 146097 in
-  let doe := z' - era * 146097 in
-  let '(yoe, mp, d) := civ_of_doe doe in
-  let m := month_of_mp mp in
-  let y := yoe + era * 400 in
-  ((if m <=? 2 then y + 1 else y), m, d).
-
-Definition is_leap (y : Z) : bool :=
-  (y mod 4 =? 0) && (negb (y mod 100 =? 0) || (y mod 400 =? 0)).
-
-Definition days_in_month (y m : Z) : Z :=
-  if m =? 2 then (if is_leap y then 29 else 28)
-  else if (m =? 4) || (m =? 6) || (m =? 9) || (m =? 11) then 30 else 31.
-
-Definition valid_dateb (y m d : Z) : bool :=
-  (1 <=? m) && (m <=? 12) && (1 <=? d) && (d <=? days_in_month y m).
+(* the proleptic Gregorian calendar (days_from_civil, civil_from_days, valid_dateb) is in
+   Lib/TimeAuxCivil.v so that its 30 s era tables are not rebuilt when this file changes *)
 
 (* ------------------------------------------------------------------------------------------- *)
 (* datetime objects                                                                             *)
@@ -188,52 +149,66 @@ Definition parse_zone (s : list Z) : option (option Z) :=
   | _ => None
   end.
 
-(* datetime.fromisoformat on the shapes  YYYY-MM-DD[(T| )HH:MM:SS[(.|,)f+][zone]]  *)
-Definition parse_iso (s : list Z) : option dt :=
+(* datetime.fromisoformat on the shapes  YYYY-MM-DD[(T| )HH:MM:SS[(.|,)f+][zone]] , in stages *)
+Definition parse_date (s : list Z) : option (Z * Z * Z * list Z) :=
   match s with
   | y1 :: y2 :: y3 :: y4 :: d1 :: mo1 :: mo2 :: d2 :: da1 :: da2 :: rest =>
       if negb ((d1 =? cDASH) && (d2 =? cDASH)) then None
       else
         match num4 y1 y2 y3 y4, num2 mo1 mo2, num2 da1 da2 with
         | Some y, Some mo, Some da =>
-            if negb ((1 <=? y) && valid_dateb y mo da) then None
-            else
-              match rest with
-              | [] => Some (mkDT (mkF y mo da 0 0 0 0) None)
-              | sep :: h1 :: h2 :: c1 :: mi1 :: mi2 :: c2 :: s1 :: s2 :: rest2 =>
-                  if negb (((sep =? cT) || (sep =? cSPACE)) && (c1 =? cCOLON) && (c2 =? cCOLON)) then None
-                  else
-                    match num2 h1 h2, num2 mi1 mi2, num2 s1 s2 with
-                    | Some h, Some mi, Some sc =>
-                        if negb ((h <? 24) && (mi <? 60) && (sc <? 60)) then None
-                        else
-                          let '(us, zs, okf) :=
-                            match rest2 with
-                            | c :: r =>
-                                if (c =? cDOT) || (c =? cCOMMA) then
-                                  let '(us, seen, r') := take_frac 6 0 0 r in (us, r', 1 <=? seen)
-                                else (0, rest2, true)
-                            | [] => (0, rest2, true)
-                            end in
-                          if negb okf then None
-                          else
-                            match parse_zone zs with
-                            | Some tz => Some (mkDT (mkF y mo da h mi sc us) tz)
-                            | None => None
-                            end
-                    | _, _, _ => None
-                    end
-              | _ => None
-              end
+            if (1 <=? y) && valid_dateb y mo da then Some (y, mo, da, rest) else None
         | _, _, _ => None
         end
   | _ => None
   end.
 
-(* strftime("%Y-%m-%dT%H:%M:%S.%fZ") for years 1000..9999 (glibc does not pad smaller years) *)
-Definition format_iso (f : fields) : list Z :=
-  fmt4 (fY f) ++ [cDASH] ++ fmt2 (fM f) ++ [cDASH] ++ fmt2 (fD f) ++ [cT]
-  ++ fmt2 (fh f) ++ [cCOLON] ++ fmt2 (fmi f) ++ [cCOLON] ++ fmt2 (fs f) ++ [cDOT] ++ fmt6 (fus f) ++ [cZ].
+Definition parse_hms (s : list Z) : option (Z * Z * Z * list Z) :=
+  match s with
+  | h1 :: h2 :: c1 :: mi1 :: mi2 :: c2 :: s1 :: s2 :: rest =>
+      if negb ((c1 =? cCOLON) && (c2 =? cCOLON)) then None
+      else
+        match num2 h1 h2, num2 mi1 mi2, num2 s1 s2 with
+        | Some h, Some mi, Some sc =>
+            if (h <? 24) && (mi <? 60) && (sc <? 60) then Some (h, mi, sc, rest) else None
+        | _, _, _ => None
+        end
+  | _ => None
+  end.
+
+Definition parse_frac (s : list Z) : option (Z * list Z) :=
+  match s with
+  | c :: r =>
+      if (c =? cDOT) || (c =? cCOMMA) then
+        let '(us, seen, r') := take_frac 6 0 0 r in
+        if 1 <=? seen then Some (us, r') else None
+      else Some (0, s)
+  | [] => Some (0, s)
+  end.
+
+Definition parse_iso (s : list Z) : option dt :=
+  match parse_date s with
+  | None => None
+  | Some (y, mo, da, rest) =>
+      match rest with
+      | [] => Some (mkDT (mkF y mo da 0 0 0 0) None)
+      | sep :: r1 =>
+          if negb ((sep =? cT) || (sep =? cSPACE)) then None
+          else
+            match parse_hms r1 with
+            | None => None
+            | Some (h, mi, sc, r2) =>
+                match parse_frac r2 with
+                | None => None
+                | Some (us, r3) =>
+                    match parse_zone r3 with
+                    | Some tz => Some (mkDT (mkF y mo da h mi sc us) tz)
+                    | None => None
+                    end
+                end
+            end
+      end
+  end.
 
 (* the spellings the harness generates (datetime.isoformat() and friends) *)
 Inductive zone := ZoneNone | ZoneZ | ZoneOff (sign_neg : bool) (hh mm : Z).
@@ -254,6 +229,14 @@ Definition fmt_iso_gen (sep : Z) (frac : bool) (f : fields) (z : zone) : list Z 
   fmt4 (fY f) ++ [cDASH] ++ fmt2 (fM f) ++ [cDASH] ++ fmt2 (fD f) ++ [sep]
   ++ fmt2 (fh f) ++ [cCOLON] ++ fmt2 (fmi f) ++ [cCOLON] ++ fmt2 (fs f)
   ++ (if frac then [cDOT] ++ fmt6 (fus f) else []) ++ fmt_zone z.
+
+(* strftime("%Y-%m-%dT%H:%M:%S.%fZ") for years 1000..9999 (glibc does not pad smaller years) *)
+Definition format_iso (f : fields) : list Z := fmt_iso_gen cT true f ZoneZ.
+
+Definition zone_ok (z : zone) : Prop :=
+  match z with ZoneOff _ hh mm => 0 <= hh < 24 /\ 0 <= mm < 60 | _ => True end.
+(* the offset a zone designator denotes (none = the string is read as UTC) *)
+Definition zoff (z : zone) : Z := match zone_offset z with Some o => o | None => 0 end.
 
 (* ------------------------------------------------------------------------------------------- *)
 (* the repository's functions                                                                   *)
@@ -307,6 +290,33 @@ Fixpoint to_datetime_utc (loc : Z) (r : repr) : result :=
   | RInt n => ResDT (fromtimestamp_int n)
   | RFloat num k => ResDT (fromtimestamp_float num k)
   end.
+
+(* ---- the instants a result denotes (specification side of the theorems) ---- *)
+Inductive itree := INone | IInst (i : Z) | ISeq (l : list itree).
+
+Fixpoint all_some {A : Type} (l : list (option A)) : option (list A) :=
+  match l with
+  | [] => Some []
+  | Some x :: l' => match all_some l' with Some r => Some (x :: r) | None => None end
+  | None :: _ => None
+  end.
+
+(* Some tree only when every datetime in the result is a valid calendar datetime, aware, with
+   utcoffset 0; the leaves are the instants of those datetimes *)
+Fixpoint result_instants (r : result) : option itree :=
+  match r with
+  | ResNone => Some INone
+  | ResErr => None
+  | ResDT d =>
+      match dttz d with
+      | Some 0 => if valid_fieldsb (dtf d) then Some (IInst (instant_of_fields (dtf d))) else None
+      | _ => None
+      end
+  | ResSeq l => option_map ISeq (all_some (map result_instants l))
+  end.
+
+Definition same_instant (loc : Z) (r : repr) (t : itree) : Prop :=
+  result_instants (to_datetime_utc loc r) = Some t.
 
 (* int(x.timestamp()) : whole seconds, truncated toward zero *)
 Definition timestamp_int (d : dt) : option Z :=
@@ -381,5 +391,13 @@ Definition datetime_from_time_and_date_integers (date_int time_int : Z) : option
 Inductive tform := HH | HHMM | HHMMSS.
 Definition pack_time (fm : tform) (h m s : Z) : Z :=
   match fm with HH => h | HHMM => h * 100 + m | HHMMSS => h * 10000 + m * 100 + s end.
+(* which (form, fields) are valid packed times: the form is recognisable from the magnitude of the
+   integer only when its leading field is non-zero (hh itself may be 0: the integers 0..23) *)
+Definition valid_packed_time (fm : tform) (h m s : Z) : Prop :=
+  match fm with
+  | HH => 0 <= h <= 23 /\ m = 0 /\ s = 0
+  | HHMM => 1 <= h <= 23 /\ 0 <= m <= 59 /\ s = 0
+  | HHMMSS => 1 <= h <= 23 /\ 0 <= m <= 59 /\ 0 <= s <= 59
+  end.
 Definition pack_date4 (y m d : Z) : Z := y * 10000 + m * 100 + d.        (* yyyymmdd *)
 Definition pack_date2 (yy m d : Z) : Z := yy * 10000 + m * 100 + d.       (* yymmdd, year 2000+yy *)
